@@ -79,7 +79,7 @@ SOURCES = {
             "src/hashgraph/inmem_store.go:InmemStore.Reset", "src/hashgraph/inmem_store.go:InmemStore.FirstRound"],
     "C16": STORE,
     "C17": RPC + ["src/node/node.go:Node.checkSuspend", "src/node/node.go:Node.Suspend"],
-    "C18": [HG + "GetFrame", "src/common/median.go:*", "src/hashgraph/block.go:NewBlockFromFrame"],
+    "C18": [HG + "GetFrame", HG + "ProcessDecidedRounds", "src/common/median.go:*", "src/hashgraph/block.go:NewBlockFromFrame", "src/hashgraph/block.go:NewBlock"],
     "C19": ["src/peers/peer_set.go:PeerSet.SuperMajority", "src/peers/peer_set.go:PeerSet.TrustCount", HG + "CheckBlock", HG + "SetAnchorBlock", HG + "ProcessSigPool",
             "src/hashgraph/roundInfo.go:RoundInfo.WitnessesDecided", HG + "_stronglySee", HG + "_round"],
     "C20": PROXY,
